@@ -209,17 +209,19 @@ macro_rules! iss {
         #[kani::proof]
         #[kani::unwind(10)]
         #[kani::stub(elements::TxIn::issuance_ids, fixed_issuance_ids)]
+        #[kani::stub(elements::Script::is_provably_unspendable, never_unspendable)]
         #[kani::stub(<core::any::TypeId as crate::stubs::traits::PEq>::eq, crate::stubs::typeid_eq_model)]
         pub fn $name() {
             issuance_check::<$a, $t>();
         }
     };
 }
-// NOT REGISTERED: out of memory at 32 GB in the SAT reduction (DESIGN 7.4)
-// begin prop=C05 desc="explicit issuance (shape per shard: asset only / token only / both): Ok exactly when the issued asset and token amounts equal the corresponding outputs; amounts, entropy and asset ids symbolic"
-iss!(issuance_asset_only, true, false);
+//@begin prop=C05 tier=quick secp=1 mem=32 timeout=2400 desc="explicit issuance (shape per shard: asset only / token only / both): Ok exactly when the issued asset and token amounts equal the corresponding outputs; amounts, entropy and asset ids symbolic"
 iss!(issuance_token_only, false, true);
-// end
+//@end
+//@begin prop=C05 tier=thorough secp=1 mem=32 timeout=3000 desc="explicit issuance, asset only"
+iss!(issuance_asset_only, true, false);
+//@end
 // begin prop=C05 desc="explicit issuance, asset and token together"
 iss!(issuance_both, true, true);
 // end
